@@ -22,7 +22,7 @@ claim("C05", "R10,R15,R16,R17,R24,R25,R26,R27,R33", "who-uses analysis of the ou
       "Decides that every merged byte passes the counting writer and the reported size is its final count, stored bytes are copied only under fieldsSame and an empty drop bitmap, dropped documents get the sentinel and nothing is written for them, and the field table cannot be written at offset 0 (known finding F6 on the no-survivor path). Does not decide consecutive renumbering or stored content.", TB, "DESIGN.md §3 R16, §4 C05, §5 F6")
 claim("C07", "R11,R12,R31,R36", "must-assign typestate of the encoding tag in PostingsList.read + reset-completeness check of every reuse path (whole-struct zero store, carried-field allow-list, cleaning calls) over go/ssa",
       "Decides that a reused postings list / iterator starts from a fully reset state except tabled buffers that are cleaned, and that a decoded list's encoding tag is defined; that every freq/norm record reader (read and skip forms) consumes the norm word exactly when the decoded frequency is non-zero (R36). Does not decide cursor lock-step under Next/Advance.", TB, "DESIGN.md §3 R11 R12, §4 C07")
-claim("C08", "R11,R32", "must-assign typestate over go/ssa: tag field stored on every successful path of read, or every caller decodes into a fresh object",
+claim("C08", "R11,R32,R28", "must-assign typestate over go/ssa: tag field stored on every successful path of read, or every caller decodes into a fresh object",
       "Decides that the scratch list reused by the dictionary iterator cannot keep a stale 1-hit tag (the mechanism the property's counts depend on). Does not decide automaton/range filtering or ordering.", TB, "DESIGN.md §3 R11, §4 C08")
 claim("C10", "R10,R1", "field-coverage effect analysis of Reset/Set/newWithChunkMode for every pooled builder struct, slice re-extension classification, dominance of Put by successful reset, global-write effect summary over the call graph, pool ownership typestate",
       "Decides that every field of the pooled builder state has a re-initialisation point, truncated slices are not re-extended over stale elements, the builder returns to the pool only after a successful reset, and the build path writes no package-level state. Does not decide 're-initialised before first read on every path'.", TB, "DESIGN.md §3 R10 R1, §4 C10")
@@ -39,7 +39,7 @@ claim("C19", "R7,R6", "dropped-error enumeration scoped to calls reaching go-fai
 claim("C20", "R9,R6,R2", "guard truth-table evaluation over the orderings of the decremented count, who-may-call for Unmap/file Close, control-dependence of the descriptor close, ordering of cache clearing before Unmap, exit discipline of Open, lockset on refs",
       "Decides that the mapping is released exactly at the 1->0 guard under the mutex by a single owner, Open starts at 1 and closes on every failure exit, caches are cleared before unmapping, and the in-memory Close is harmless. Does not decide OS-level release.", TB, "DESIGN.md §3 R9, §4 C20")
 
-claim("C01", "R13,R14,R28,R29,R30,R31,R36,R37", "provenance classification of every getChunkSize call site (role from where the result flows, kind from where the arguments come) + format-constant table check, in both build-tag configurations",
+claim("C01", "R13,R14,R28,R29,R30,R31,R32,R36,R37", "provenance classification of every getChunkSize call site (role from where the result flows, kind from where the arguments come) + format-constant table check, in both build-tag configurations",
       "Narrow claim. Decides that the build writer, the merge writer and the reader derive the postings chunk size from (the segment's chunk mode, a postings cardinality, the segment's document count) alike, and that the encoding constants have their v16 values; that per-term accumulators are reset, every encoded location component comes from that location, and the norm word of a posting is written and consumed exactly when its frequency is non-zero (R36). Does not decide which hits/frequencies/locations come back.", TB, "DESIGN.md §3 R13 R14, §4 C01")
 claim("C02", "R19,R26,R27,R33,R10,R29", "path analysis of the stored-field visitor loop (pending/stop typestate over visitor results, edge-sensitive), truth-table evaluation of the document-number guard over the orderings of (num, numDocs), natural-loop exit analysis of DocNumbers",
       "Decides that a visitor's stop request is honoured on every path, that document numbers at or beyond Count never index the stored table, and that DocNumbers looks at every given id. Does not decide byte-for-byte round trip of stored values.", TB, "DESIGN.md §3 R19 R26, §4 C02")
